@@ -198,7 +198,7 @@ func (fileEngine) Gen(rng *rand.Rand, tier string, i int) any {
 			} else {
 				// written in place, or installed by renaming a new file over the name (what editors,
 				// sed -i and deployment tools do), with or without a backup link to the old file
-				c.Steps = append(c.Steps, []string{"good", "good", "good:rename", "good:rename-keep"}[rng.Intn(4)])
+				c.Steps = append(c.Steps, []string{"good", "good", "good:rename", "good:rename-keep", "good:rename-old-mtime", "good:rename-then-edit", "good:rename-then-edit"}[rng.Intn(7)])
 			}
 		}
 		c.Steps = append(c.Steps, []string{"good", "good:rename", "good:rename-keep"}[rng.Intn(3)], "good")
@@ -520,6 +520,7 @@ func runFileRefresh(ctx *fw.Ctx, c *fileCase) {
 	}
 	type exp struct {
 		kind string // "initial" | "progress" | "rearm" | "hold"
+		mid  int    // a version that may be seen in between (0 none)
 		ver  int    // version that must be reached (progress) / held (hold)
 		prev int
 		mac  int
@@ -539,8 +540,20 @@ func runFileRefresh(ctx *fw.Ctx, c *fileCase) {
 		if strings.HasPrefix(st, "good") {
 			r := req(0, xid)
 			r.Write = &FileWrite{Name: "leases.txt", Content: versionFile(v6, c.Macs, next, ""), Rename: strings.HasPrefix(st, "good:rename"), KeepOld: st == "good:rename-keep"}
+			if st == "good:rename-old-mtime" {
+				r.Write.MtimeAgoS = 600 // the version being installed is older than the one in force (a roll-back, rsync -t)
+			}
+			mid := 0
+			if st == "good:rename-then-edit" {
+				// the replacement is itself edited in place 0-1200 us later: what must end up served is the edit
+				r.Write.Content2 = versionFile(v6, c.Macs, next+1, "")
+				r.Write.EditAfterUs = int(uint64(c.Seed>>7)%9) * 100 * (1 + len(j.Reqs)%3) / 2
+				mid = next
+				next++
+				r.Poll = &PollSpec{Until: hex.EncodeToString(versionAddr(v6, next, 0)), MaxPolls: 200, IntervalMs: 50}
+			}
 			r.Poll = &PollSpec{Until: hex.EncodeToString(versionAddr(v6, next, 0)), MaxPolls: 200, IntervalMs: 50}
-			add(r, exp{kind: "progress", ver: next, prev: cur, mac: 0})
+			add(r, exp{kind: "progress", ver: next, prev: cur, mac: 0, mid: mid})
 			// re-arm once: rewrite the same content and give it the other half of the bound
 			r2 := req(0, xid)
 			r2.Write = &FileWrite{Name: "leases.txt", Content: versionFile(v6, c.Macs, next, "")}
@@ -699,7 +712,7 @@ func runFileRefresh(ctx *fw.Ctx, c *fileCase) {
 			continue
 		}
 		for k, v := range seen {
-			if v != e.prev && v != e.ver {
+			if v != e.prev && v != e.ver && !(e.mid != 0 && v == e.mid) {
 				ctx.Viol("C10", "neither-old-nor-new", "%s: while version %d was being installed over %d, MAC #%d was served version %d (sequence %v)", desc, e.ver, e.prev, e.mac, v, seen)
 			}
 			if k > 0 && v < seen[k-1] {
